@@ -39,6 +39,7 @@ def PeerLive (cfg : Cfg) (recording : Bool) : Nat → Nat → List Ev → Prop
   | _, _, [] => True
   | _, p, .request t :: es => PeerLive cfg recording t p es
   | r, _, .packet t :: es => PeerLive cfg recording r t es
+  | _, _, .restart t :: es => PeerLive cfg recording t t es
   | r, p, .tick now :: es =>
     (if recording then now < p + cfg.read
      else (now < r + cfg.idle ∨ now < p + cfg.idle)) ∧ PeerLive cfg recording r p es
@@ -58,6 +59,9 @@ theorem live_aux (cfg : Cfg) (recording : Bool) (hr : 0 < cfg.read) (hi : 0 < cf
     | packet t =>
       simp only [run, step, he]
       exact ih _ r t (by simp) (by simpa using hreq) rfl (by simpa [PeerLive] using hl)
+    | restart t =>
+      simp only [run, step, he]
+      exact ih _ t t (by simp) rfl rfl (by simpa [PeerLive] using hl)
     | tick now =>
       simp only [PeerLive] at hl
       obtain ⟨hnow, hl⟩ := hl
@@ -87,6 +91,15 @@ example : PeerLive { idle := 3 * sec, read := 2 * sec } false 0 0
     [.tick sec, .request sec, .tick (2 * sec), .request (2 * sec), .tick (3 * sec), .tick (4 * sec)] := by
   simp [PeerLive, sec]
 
+/-- A publisher that pauses for longer than ReadTimeout and then records again is live as long as its
+first packet after the resume comes within ReadTimeout of the resume: RECORD at 0, packets until 3 s,
+PAUSE, RECORD again at 10.5 s, first packet 1.5 s later, ReadTimeout 2 s, a check every 0.5 s. -/
+theorem resumed_after_long_pause_is_live :
+    PeerLive { idle := 6 * sec, read := 2 * sec } true 0 0
+      [.packet (3 * sec), .restart (21 * (sec / 2)), .tick (11 * sec), .tick (23 * (sec / 2)), .tick (12 * sec),
+       .packet (12 * sec), .tick (25 * (sec / 2))] := by
+  simp [PeerLive, sec]
+
 /-- with packet times kept in nanoseconds a publisher with ReadTimeout = 1 s that sends a packet
 every 100 ms is live (the same timeline was timed out when the times were kept in whole seconds) -/
 theorem record_1s_live :
@@ -108,6 +121,7 @@ def lastTime : Nat → List Ev → Nat
   | _, .tick now :: es => lastTime now es
   | _, .request now :: es => lastTime now es
   | _, .packet now :: es => lastTime now es
+  | _, .restart now :: es => lastTime now es
 
 /-- the moment from which a check must find the session timed out -/
 def deadline (cfg : Cfg) (recording : Bool) (s : State) : Nat :=
@@ -140,6 +154,7 @@ theorem silent_aux (cfg : Cfg) (recording : Bool) (period : Nat) (s : State) :
     cases e with
     | request t => exact absurd hsp (by simp [Spaced])
     | packet t => exact absurd hsp (by simp [Spaced])
+    | restart t => exact absurd hsp (by simp [Spaced])
     | tick now =>
       simp only [Spaced] at hsp
       obtain ⟨_, hle, hsp⟩ := hsp
@@ -182,6 +197,7 @@ theorem run_expired_of_expiryTime (cfg : Cfg) (recording : Bool) :
     cases e with
     | request now => simp only [expiryTime] at h; simp only [run]; exact ih _ t (by simp [step, he]) h
     | packet now => simp only [expiryTime] at h; simp only [run]; exact ih _ t (by simp [step, he]) h
+    | restart now => simp only [expiryTime] at h; simp only [run]; exact ih _ t (by simp [step, he]) h
     | tick now =>
       simp only [expiryTime] at h
       by_cases hx : expires cfg recording s now = true
